@@ -250,7 +250,8 @@ def r44(db, ctx):
                         ctx.ok('R4.4', g, f'{callee.rsplit("::", 1)[-1]}(ceil(len / C))')
                     else:
                         ctx.fail('R4.4', g, 'row count', f'row count {X.show(a, 100)} is not ceil(len / C)', span=t['span'])
-    ctx.floor('R4.4', n, 3, 'ceil-div row-count sites')
+    has_sample = any(k.endswith('StripedSequence::<A, C>::sample') for k in db.fns)
+    ctx.floor('R4.4', n, 2 + (1 if has_sample else 0), 'ceil-div row-count sites')
 
 
 def r45(db, ctx):
